@@ -696,22 +696,25 @@ theorem x_panics_only_in_plane (P : Plane W) (br : BR) (w : W) (h : reconcileX P
 /-- **`x_dispatch`** — which plane serves which workload reference and rolling style (`getReleaseController`, all cases):
     blue-green serves CloneSet and Deployment with their blue-green planes; canary serves the Deployment with the
     canary-style plane and *falls through* to the partition arm for every other kind; the partition arm (also the empty style)
-    picks the CloneSet / DaemonSet / Deployment partition planes and the StatefulSet-like plane for everything else; an unknown
-    style, and blue-green on any other kind, end at the StatefulSet-like plane; `enableExtraWorkloadForCanary` matters only when
-    the style is empty; an unsupported group/kind gets no plane. -/
+    picks the CloneSet / DaemonSet / Deployment partition planes; whatever is left ends at the StatefulSet-like plane **only if it is
+    a StatefulSet** (native or Advanced) — every other combination gets no plane; `enableExtraWorkloadForCanary` matters only when
+    the style is empty. -/
 theorem x_dispatch (k : RefKind) (s : Style) (e : Bool) :
     dispatch k s e =
-      (if k = .unsupported then none else
-       match effectiveStyle s e, k with
+      (match effectiveStyle s e, k with
+       | _, .unsupported => none
        | .blueGreen, .cloneSet => some .csBlueGreen
        | .blueGreen, .deployment => some .depBlueGreen
        | .canary, .deployment => some .depCanary
-       | .blueGreen, _ => some .stsLike
-       | .other, _ => some .stsLike
+       | .blueGreen, .nativeSts | .blueGreen, .advancedSts => some .stsLike
+       | .blueGreen, _ => none
+       | .other, .nativeSts | .other, .advancedSts => some .stsLike
+       | .other, _ => none
        | _, .cloneSet => some .csPartition
        | _, .daemonSet => some .dsPartition
        | _, .deployment => some .depPartition
-       | _, _ => some .stsLike) ∧
+       | _, .nativeSts | _, .advancedSts => some .stsLike
+       | _, _ => none) ∧
     (s ≠ .empty → dispatch k s e = dispatch k s false) ∧
     (dispatch k .empty true = dispatch k .canary false) := by
   refine ⟨?_, ?_, ?_⟩
@@ -727,14 +730,33 @@ theorem x_dispatch_styles_disjoint (k : RefKind) (e : Bool) :
     dispatch k .partition e ≠ some .depCanary := by
   cases k <;> cases e <;> decide
 
-/-- **`x_dispatch` (unsupported kind)** — a workload reference of an unsupported group/kind never crashes the reconciler and never
-    touches anything but the status: the initialised status is persisted (an empty phase becomes `Preparing`), the finalizer
-    handling is the usual one, nothing is executed and no error is returned. -/
-theorem x_unsupported_kind_is_inert (s : Style) (e : Bool) (br : BR) (w : W) :
-    dispatch .unsupported s e = none ∧
+/-- **`x_dispatch` (the StatefulSet-like control gets StatefulSets only)** — the control whose helpers panic on every other typed
+    object (`GetReplicas`, `GetStatefulSetPartition`, `IsStatefulSetUnorderedUpdate`) is built for native and Advanced StatefulSets
+    and for nothing else; a DaemonSet plane serves DaemonSets only, a Deployment plane Deployments only, a CloneSet plane CloneSets only. -/
+theorem x_dispatch_kind_matches (k : RefKind) (s : Style) (e : Bool) (id : PlaneId) (h : dispatch k s e = some id) :
+    match id with
+    | .stsLike => k = .nativeSts ∨ k = .advancedSts
+    | .dsPartition => k = .daemonSet
+    | .csPartition | .csBlueGreen => k = .cloneSet
+    | .depPartition | .depCanary | .depBlueGreen => k = .deployment := by
+  cases k <;> cases s <;> cases e <;> cases id <;> revert h <;> decide
+
+/-- **`x_dispatch` (who gets no plane)** — exactly: an unsupported group/kind; an apps/v1 ReplicaSet under any style; a CloneSet,
+    Deployment or DaemonSet under an unknown style; a DaemonSet under blue-green. -/
+theorem x_dispatch_refused (k : RefKind) (s : Style) (e : Bool) :
+    dispatch k s e = none ↔
+      (k = .unsupported ∨ k = .replicaSet ∨
+       (effectiveStyle s e = .other ∧ (k = .cloneSet ∨ k = .deployment ∨ k = .daemonSet)) ∨
+       (effectiveStyle s e = .blueGreen ∧ k = .daemonSet)) := by
+  cases k <;> cases s <;> cases e <;> decide
+
+/-- **`x_unsupported_kind_is_inert` / `x_no_panic` without a plane (full strength)** — whenever `getReleaseController` hands out no
+    plane (see `x_dispatch_refused`), the reconcile never crashes and never touches anything but the status: the initialised status is
+    persisted (an empty phase becomes `Preparing`), the finalizer handling is the usual one, nothing is executed, no error is returned
+    — whatever objects the workload reference names. -/
+theorem x_unsupported_kind_is_inert (br : BR) (w : W) :
     ∃ o, reconcileNoPlane br w = .val o ∧ o.wl = w ∧ o.err = false ∧ goneOnlyWhenCompleted br o.br = true ∧
       (∀ b, o.br = some b → b.status = initializedStatus br.status ∧ b.status.phase ≠ .empty) := by
-  refine ⟨by cases s <;> cases e <;> rfl, ?_⟩
   unfold reconcileNoPlane
   split
   · rename_i hc
@@ -752,6 +774,11 @@ theorem x_unsupported_kind_is_inert (s : Style) (e : Bool) (br : BR) (w : W) :
       · simp [resetStatus]
       · assumption
 
+/-- **C09 `x_no_panic` (no plane)** — the reconcile of a BatchRelease that gets no plane does not crash. -/
+theorem x_no_panic_without_plane (br : BR) (w : W) : reconcileNoPlane br w ≠ .panic := by
+  obtain ⟨o, ho, _⟩ := x_unsupported_kind_is_inert br w
+  rw [ho]; intro h; cases h
+
 /-! ### non-vacuity (tests on literals) -/
 
 /-- the advance happens through `reconcileX` on the CloneSet plane exactly as through `reconcile` -/
@@ -766,9 +793,16 @@ example : stoppedX csPlane { RV.Props.Executor.exampleBR with status := { RV.Pro
       (some RV.Props.Executor.exampleWL) = true := by decide
 
 /-- dispatch examples: blue-green CloneSet, canary Deployment (by style and by the deprecated flag), canary falls through
-    for a CloneSet, a StatefulSet under any style, an unsupported kind -/
+    for a CloneSet, a StatefulSet under blue-green, an unsupported kind -/
 example : dispatch .cloneSet .blueGreen false = some .csBlueGreen ∧ dispatch .deployment .canary false = some .depCanary ∧
     dispatch .deployment .empty true = some .depCanary ∧ dispatch .cloneSet .canary false = some .csPartition ∧
     dispatch .nativeSts .blueGreen true = some .stsLike ∧ dispatch .unsupported .partition false = none := by decide
+
+/-- regression examples of the repaired finding `stsPlaneForeignKind`: a ReplicaSet reference, a CloneSet / Deployment / DaemonSet
+    under an unknown style and a DaemonSet under blue-green get no plane (they used to be handed to the StatefulSet-like control,
+    whose helpers panic on them) -/
+example : dispatch .replicaSet .partition false = none ∧ dispatch .replicaSet .empty true = none ∧
+    dispatch .cloneSet .other false = none ∧ dispatch .deployment .other true = none ∧ dispatch .daemonSet .other false = none ∧
+    dispatch .daemonSet .blueGreen false = none ∧ dispatch .advancedSts .other false = some .stsLike := by decide
 
 end RV.Props.ExecutorX
